@@ -858,10 +858,13 @@ def run(chk, prog):
         n["R6"] += rule_R6(chk, drv, short)
         if short == "ionization":
             n["R7"] += rule_R7(chk, prog.library(), drv)
+            from . import c01_budget
+            n["R10"] = c01_budget.rule_R10(chk, drv)
     n["R8"] += rule_R8(chk, prog.library())
     # R9 (the per-source split adds up to the request) was built and withdrawn: it matched the shape of the constructor
     # and fired on a behaviour-preserving rewrite (refactorings/g31/patch_06); see DESIGN.md section 8.
     chk.extra["obligations_per_rule"] = n
+    chk.floor("R10", n.get("R10", 0), 3)
     chk.floor("R1", n["R1"], 12)
     chk.floor("R2", n["R2"], 8)
     chk.floor("R3", n["R3"], 3)
